@@ -7,45 +7,84 @@ ID = "C05"
 AREA = M.AREA
 LEAN_PROPS = "Litep2pVerif.Props.C05"
 THEOREMS = ["no_dup_outcome", "dial_ledger", "quiescent_dialable", "addr_total", "dial_address_parses_for_tcp",
-            "dial_address_peers_agree"]
+            "dial_address_peers_agree", "protocol_dial_ledger", "protocol_dial_joins",
+            "protocol_notified_despite_full_channel", "protocol_dial_address_error_silent_witness"]
 MANIFEST = {
     "text": "Lean 4 theorems about an executable operational model of the connection manager with a ghost ledger of accepted "
             "dial attempts: no_dup_outcome, dial_ledger (outcome + inflight = 1 for every attempt in every reachable state), "
             "quiescent_dialable, addr_total (every multiaddress shape), for all histories in which the transport keeps the "
             "Transport-trait contract (stated as an executable predicate) and all limit configurations. Findings (d) and (f) "
-            "were repaired by two fix: commits and the theorems are proved for the repaired code. Tie: seeded differential run "
-            "of the real TransportManager (scripted Transport) against the model, plus an outcome-ledger oracle.",
+            "were repaired by two fix: commits and the theorems are proved for the repaired code. Protocol level "
+            "(Model/Manager/Proto.lean): bounded event channel per installed protocol, the command channel, the DialPeer / "
+            "DialAddress arms of next() (incl. the DialFailure{peer, []} report of fix e94cf63), every site where protocols are "
+            "told a dial failure (try_send, then a blocking send that suspends next()) or a connection; protocol_dial_ledger "
+            "(every accepted request is queued or processed once; a processed one started an attempt whose single report "
+            "reaches every protocol, or got exactly one failure report, or joined; delivery = taken out ++ still buffered), "
+            "protocol_dial_joins, protocol_notified_despite_full_channel (a full channel delays, never loses), for every "
+            "number/order of protocols, every capacity and every interleaving; protocol_dial_address_error_silent_witness "
+            "keeps the open defect (queued DialAddress failure is only logged; known finding). Tie: seeded differential run "
+            "of the real TransportManager (scripted Transport, real protocol contexts with small channels, requests through "
+            "the real TransportManagerHandle, connections reported by the real ProtocolSet) against the model, plus an "
+            "outcome-ledger oracle per attempt and per protocol.",
     "note": "Trusted: Lean kernel; axioms propext/Quot.sound/Classical.choice; the model and its sampled tie; the environment "
             "contract `allowed` (events only for outstanding obligations, accept succeeds, dial/open/negotiate return Ok — "
             "proved for dial via dial_address_parses_for_tcp, read off tcp/mod.rs for open/negotiate); TcpTransport's own "
-            "cancel/poll_next bookkeeping is outside the model.",
+            "cancel/poll_next bookkeeping is outside the model; an accepted connection reports itself to the protocols only "
+            "when every protocol channel has room (the blocking broadcast of ProtocolSet::report_connection_established is "
+            "C09's subject), the command channel (256) never fills up.",
     "technique": "Lean 4 proof (ghost-ledger invariant by induction over all contract-abiding histories) + model/implementation correspondence check",
     "design_ref": "DESIGN.md §7 C05, §8 (d)-(g)",
 }
 RULE = ("closed-loop seeded histories (limit configs none/0/1/2/(3,2)/mixed; 2-3 peers x 3 addresses; dial, dial_address, "
         "add_known_address, open/negotiate success and failure, simultaneous inbound connections, limit rejections, accept "
         "results, closures; <= 25 events; 5-15 % of cases with contract-breaking events) plus a stream of adversarial "
-        "multiaddress shapes for dial_address, run on the real TransportManager and on the Lean model; non-trivial = at least "
+        "multiaddress shapes for dial_address; in half of the histories 1-3 protocols with event channels of capacity 1-3 "
+        "are installed, dial by peer id / address through the manager handle (limit configs under which queued dials fail), "
+        "their channels are filled before and drained after outcomes are delivered (manager blocked inside next()), "
+        "application calls are tried while it is blocked; run on the real TransportManager and on the Lean model; non-trivial = at least "
         "one dial attempt started and concluded; distinct = distinct (ops, observations) transcripts by SHA-256")
 TRUSTED_BASE = ["Lean 4.33 kernel", "axioms: propext, Quot.sound, Classical.choice only",
                 "hand-written model Model/Manager/{PeerState,Limits,Dial}.lean tied to manager/{peer_state,limits,mod}.rs by this correspondence run",
                 "the environment contract `allowed` of Model/Manager/Dial.lean (what a Transport may report)",
-                "adapter /repo/src/verif/c05.rs (scripted Transport, one next() poll to quiescence per op), harness, verif.py, checks/c05.py, checks/mgr_common.py",
+                "adapter /repo/src/verif/c05.rs (scripted Transport, next() polled to quiescence per op; a next() future that is "
+                "pending inside an arm is kept and resumed, recognised by a second poll that does not reach the transport), "
+                "harness, verif.py, checks/c05.py, checks/mgr_common.py",
+                "tokio mpsc semantics (bounded channel, a blocked send() is served before later try_send()s)",
                 "TcpTransport internals (cancel/poll_next bookkeeping), tokio::select! fairness"]
 ASSUMPTIONS = ["default feature set: TCP is the only SupportedTransport",
                "the transport keeps the Transport-trait contract: one terminal event per dial/open/negotiate unless cancelled, "
                "reported peer = the /p2p it parsed, accept succeeds for a connection it has just reported",
                "addresses in a peer's address store have the TCP shape and end in that peer's /p2p (add_known_address filter, C10)",
-               "fewer than 64 addresses per peer in a case"]
+               "fewer than 64 addresses per peer in a case",
+               "protocol level: the application does not call the manager and the environment delivers nothing while next() "
+               "is blocked on a full protocol channel; a connection's accept future runs when every protocol channel has room; "
+               "fewer than 256 queued commands"]
 KEEP_PREFIX = 1
 
 
 def gen_cases(rng, tier):
-    return M.gen_cases(rng, tier, share_addr=0.25)
+    return M.gen_cases(rng, tier, share_addr=0.2, share_proto=0.5)
+
+
+PROTO_CORPUS = [
+    # a protocol dials, its channel is full when the open failure is delivered: the manager waits for it
+    ["limits none none", "protocols 2 cap=1", "addknown 1 ip4.11/tcp.1001/p2p.1", "pdial 0 1", "pfill 0", "pfill 1",
+     "ev openfail q1 errs=ip4.11/tcp.1001/p2p.1=t", "dial 1", "pdial 1 1", "pdrain 0", "pdrain 1", "pdrain 0", "pdrain 1"],
+    # queued DialPeer at the outgoing-connection limit: DialFailure{peer, []} (fix e94cf63), also through a full channel
+    ["limits none 0", "protocols 1 cap=2", "addknown 1 ip4.11/tcp.1001/p2p.1", "pdial 0 1", "pfill 0", "pdial 0 1",
+     "pdrain 0", "pdrain 0"],
+    # negotiation failure and limit rejection of a connection dialed for a protocol
+    ["limits none 1", "protocols 2 cap=2", "addknown 1 ip4.11/tcp.1001/p2p.1", "addknown 2 ip4.12/tcp.1002/p2p.2",
+     "pdial 0 1", "pdial 1 2", "ev opened q1 ip4.11/tcp.1001/p2p.1", "ev opened q2 ip4.12/tcp.1002/p2p.2", "pfill 1",
+     "ev established 1 q1 ip4.11/tcp.1001/p2p.1 dialer", "ev established 2 q2 ip4.12/tcp.1002/p2p.2 dialer",
+     "pdrain 1", "accepted q1 ok", "pdrain 0", "pdrain 1"],
+    # known finding: a queued DialAddress that fails is only logged
+    ["limits none 0", "protocols 1 cap=2", "pdialaddr 0 ip4.11/tcp.1001/p2p.1", "pdrain 0"],
+]
 
 
 def corpus():
-    return [list(c) for c in M.CORPUS]
+    return [list(c) for c in M.CORPUS] + [list(c) for c in PROTO_CORPUS]
 
 
 def nontrivial(case, out):
@@ -58,17 +97,35 @@ def nontrivial(case, out):
     return started and concluded
 
 
+class Protocols:
+    """Protocol-level ledger, from the operations and observations only: what every installed
+    protocol must have been told (`exp`: one report per concluded dial attempt, one per failed
+    request) against what it took out of its channel (`recv`) and what still sits there."""
+
+    def __init__(self, n, cap):
+        self.n, self.cap = n, cap
+        self.recv = [[] for _ in range(n)]
+        self.buf = [[] for _ in range(n)]       # symbolic content of each channel: "fill" | "?"
+        self.exp = []                           # (kind, peer, conn-or-None, addrs-or-None, step)
+        self.queue = []                         # accepted requests whose command is still queued
+        self.requests = 0
+
+
 def oracle(case, out):
     """Outcome ledger per accepted dial attempt, evaluated on the observations while the environment
     keeps its contract: exactly one of connection / failure once the transport owes nothing for the
     attempt, never two reports, never silence; a peer with nothing in flight and no open connection
     is Disconnected and a dial is really attempted; dial_address never panics and an error leaves
-    every peer's state untouched."""
+    every peer's state untouched. With protocols installed: every protocol is told every outcome
+    exactly once (a full channel may delay it while the manager waits), and every dial request of a
+    protocol that was accepted is concluded by an attempt's outcome, by the dial or connection it
+    joined, or by a failure report of its own."""
     bad = []
     t0 = case[0].split()
     if t0[0] != "limits" or len(t0) != 3:
         return bad
     g = Ghost(t0[1], t0[2])
+    pr = None
 
     def v(kind, msg, i):
         bad.append({"kind": kind, "msg": msg, "step": i, "op": case[i], "out": out[i] if i < len(out) else None})
@@ -77,11 +134,18 @@ def oracle(case, out):
         if i == 0 or i >= len(out):
             continue
         o = out[i]
-        t = op.split()
+        t = op.split(" -> ")[0].split()
         if o == "skipped" or o == "bad-op":
             break
+        if o == "busy":
+            continue
+        if t[0] == "protocols":
+            if o.startswith("ok") and len(t) == 3 and t[1].isdigit() and t[2].startswith("cap=") and t[2][4:].isdigit():
+                pr = Protocols(int(t[1]), int(t[2][4:]))
+                continue
+            break
         if o.startswith("panic"):
-            if t[0] in ("dial", "dialaddr", "addknown"):
+            if t[0] in ("dial", "dialaddr", "addknown", "pdial", "pdialaddr", "pfill", "pdrain"):
                 v("panic", f"{t[0]} panicked: {o}", i)
             elif g.contract and g.allowed(t):
                 v("panic", f"panic on an event the transport contract allows: {o}", i)
@@ -91,9 +155,11 @@ def oracle(case, out):
             break
         prev = g.prev
         busy_before = {p: (g.owed_of(p), g.live_of(p)) for p in range(0, 8)}
+        nled = len(g.ledger)
         g.update(i, op, obs)
         if not g.contract or g.clash:
             break          # the environment broke its contract: nothing more to say about this history
+        suspended = obs["susp"] == "y"
         # --- API answers
         if t[0] in ("dial", "dialaddr"):
             target = int(t[1]) if t[0] == "dial" else last_peer(t[1])
@@ -115,23 +181,117 @@ def oracle(case, out):
                     a = started[0][2][0] if started[0][2] else "-"
                     if M.tcp_peer(a) != target:
                         v("peer-mismatch", f"record kept for peer {target}, transport asked to dial {a}", i)
-        # --- ledger
+        # --- ledger (the events of a step the manager is still blocked in have not been returned yet)
         for a in g.ledger:
             n = len(a["reports"])
             inflight = 1 if a["carrier"] in g.owed else 0
             if n > 1:
                 v("duplicate-outcome", f"attempt {a['conn']} of peer {a['peer']} got {n} reports {a['reports']}", i)
-            elif n + inflight != 1 and not g.acceptfail:
+            elif n + inflight != 1 and not g.acceptfail and not suspended:
                 what = "no report and nothing in flight (silence)" if n == 0 else "a report while still in flight"
                 v("ledger", f"attempt {a['conn']} of peer {a['peer']}: {what}", i)
         # --- quiescence: nothing owed for p, no open connection with p => Disconnected
         for p, stv in obs["st"].items():
             if not g.owed_of(p) and not g.live_of(p) and not g.acceptfail:
                 v("wedged", f"peer {p} is {stv} although nothing is in flight and no connection is open", i)
-        if bad:
+        # --- protocols
+        if pr is not None and obs["ch"] is not None and len(obs["ch"]) == pr.n:
+            protocol_ledger(pr, g, t, obs, prev, busy_before, nled, i, v)
+        if any(b["kind"] != "pdialaddr-silent" for b in bad):
             break
     return bad
 
 
+def protocol_ledger(pr, g, t, obs, prev, busy_before, nled, i, v):
+    j = int(t[1]) if t[0] in ("pdial", "pdialaddr", "pfill", "pdrain") and t[1].isdigit() and int(t[1]) < pr.n else None
+    # what the protocol took out of its channel
+    if t[0] == "pdrain" and j is not None:
+        got = [] if obs["res"] == "got=-" else obs["res"][4:].split(",")
+        if len(got) != len(pr.buf[j]) or any((x == "fill") != (b == "fill") for x, b in zip(got, pr.buf[j])):
+            v("channel-content", f"protocol {j} took {got} out of a channel that held {pr.buf[j]}", i)
+        pr.recv[j] += [x for x in got if x != "fill"]
+        pr.buf[j] = []
+    if t[0] == "pfill" and j is not None and obs["res"].startswith("n="):
+        pr.buf[j] += ["fill"] * int(obs["res"][2:])
+    # a request of a protocol: refused, joined to the dial in progress, or queued
+    if t[0] in ("pdial", "pdialaddr") and j is not None and obs["res"] == "ok":
+        peer = int(t[2]) if t[0] == "pdial" else last_peer(t[2])
+        was = (prev["st"].get(peer, "") if prev else "") if peer is not None else ""
+        pr.requests += 1
+        if t[0] == "pdial" and was[:1] in ("G", "O", "D"):
+            pass                       # a dial of that peer is in progress: its outcome is told to every protocol
+        else:
+            pr.queue.append({"kind": t[0], "peer": peer, "proto": j, "step": i})
+    # outcomes the manager returned in this step (those of a step it was blocked in come first): every
+    # protocol must have been told before
+    for e in obs["events"]:
+        if e["k"] == "est":
+            pr.exp.append(("est", e["peer"], e["conn"], None, i))
+        elif e["k"] == "dialfail":
+            pr.exp.append(("df", last_peer(e["addr"]), None, [e["addr"]], i))
+        elif e["k"] == "openfail":
+            who = next((a["peer"] for a in g.ledger if a["conn"] == e["conn"]), None)
+            pr.exp.append(("df", who, None, None, i))
+    # commands the manager got to in this step, in order
+    done = max(0, len(pr.queue) - obs["cmd"])
+    new_attempts = list(g.ledger[nled:])
+    seen_busy = dict(busy_before)
+    for r in pr.queue[:done]:
+        p = r["peer"]
+        mine = next((a for a in new_attempts if a["peer"] == p), None)
+        if mine is not None:
+            new_attempts.remove(mine)      # the request started this attempt: concluded by the attempt's outcome
+            seen_busy[p] = ([mine["conn"]], seen_busy.get(p, ([], []))[1])
+            continue
+        owed_before, live_before = seen_busy.get(p, ([], []))
+        if owed_before or live_before:
+            continue                       # joined the dial in progress / the peer is connected
+        if r["kind"] == "pdial":
+            pr.exp.append(("df", p, None, [], i))    # the request failed: DialFailure{peer, []}
+        else:
+            v("pdialaddr-silent", f"protocol {r['proto']}: dial_address request for peer {p} accepted at step {r['step']}, "
+              f"the queued command failed and no protocol is told", i)
+    pr.queue = pr.queue[done:]
+    if obs["susp"] == "y":
+        # blocked on a full channel: some protocols have the report, the others get it after the drain
+        for jj in range(pr.n):
+            while len(pr.buf[jj]) < obs["ch"][jj]:
+                pr.buf[jj].append("?")
+        return
+    for jj in range(pr.n):
+        if obs["ch"][jj] < len(pr.buf[jj]):
+            v("channel-content", f"channel of protocol {jj} shrank from {len(pr.buf[jj])} to {obs['ch'][jj]} without a drain", i)
+            pr.buf[jj] = pr.buf[jj][:obs["ch"][jj]]
+        while len(pr.buf[jj]) < obs["ch"][jj]:
+            pr.buf[jj].append("?")
+        told = len(pr.recv[jj]) + sum(1 for x in pr.buf[jj] if x != "fill")
+        if told < len(pr.exp):
+            kinds = [f"{k}:{p}" for k, p, _, _, _ in pr.exp]
+            v("protocol-silence", f"protocol {jj} was told {told} outcomes, {len(pr.exp)} were due ({kinds}): "
+              f"a report was lost", i)
+        elif told > len(pr.exp):
+            v("protocol-duplicate", f"protocol {jj} was told {told} outcomes, only {len(pr.exp)} were due", i)
+        elif not pr.buf[jj]:
+            # everything was taken out: the reports themselves, one by one
+            want = []
+            for k, p, c, addrs, _ in pr.exp:
+                want.append((k, p, c))
+            have = []
+            for x in pr.recv[jj]:
+                f = x.split(":")
+                have.append((f[0], int(f[1]) if f[1].isdigit() else -1, f[2] if f[0] == "est" else None))
+            for (k, p, c), h in zip(want, have):
+                if k != h[0] or (p is not None and p != h[1]) or (k == "est" and c != h[2]):
+                    v("protocol-report", f"protocol {jj} was told {h} where {(k, p, c)} was due", i)
+                    break
+            for (k, p, c, addrs, _), x in zip(pr.exp, pr.recv[jj]):
+                if k == "df" and addrs is not None:
+                    f = x.split(":")
+                    got_addrs = [] if f[2] == "-" else f[2].split("|")
+                    if got_addrs != addrs:
+                        v("protocol-report", f"protocol {jj}: failure report names {got_addrs}, dialed {addrs}", i)
+                        break
+
+
 def matches_known(k, v):
-    return False
+    return k.get("signature", {}).get("kind") == v.get("kind") == "pdialaddr-silent"
